@@ -41,6 +41,19 @@ def tools_dir():
     return _state['b']
 
 
+def _keep_build_fresh(b):
+    """build.core() keeps the two most recently used build directories per flavour; while other checks build newer trees
+    a long run re-stamps the one it is using so that it is not pruned under it."""
+    import time
+    now = time.time()
+    if now - _state.get('stamp', 0) > 5:
+        _state['stamp'] = now
+        try:
+            os.utime(b, None)
+        except OSError:
+            pass
+
+
 def budget_for(nbytes):
     return STEP_A + STEP_B * nbytes
 
@@ -109,6 +122,7 @@ def signature(r):
 def execute(data, tool, args=(), name='in.exp', path=None, timeout=60):
     """Run `tool args <file>` with cwd = fresh empty directory; the input lives in a sibling directory."""
     b = tools_dir()
+    _keep_build_fresh(b)
     top = tempfile.mkdtemp(prefix='c06', dir='/dev/shm')
     try:
         wd = os.path.join(top, 'w')
